@@ -4,7 +4,7 @@ from .common import *
 
 def drivers_run(mode, maxn, maxm, name, caseset="all"):
     return run_tlc("Drivers.tla", cfg(constants={"Mode": mode, "MaxN": maxn, "MaxM": maxm, "CaseSet": caseset},
-                                      invariants=["DriversCorrect", "NestedDriversCorrect", "Export"]), name, workers=6, timeout=3000)
+                                      invariants=["DriversCorrect", "NestedDriversCorrect", "SeedHelpersInv", "Export", "ExportSeeds"]), name, workers=6, timeout=3000)
 
 
 def run(tier):
@@ -33,11 +33,12 @@ def run(tier):
     need = {"first_derivative", "second_derivative", "third_derivative", "gradient", "jacobian", "hessian", "partial_hessian",
             "second_partial_derivative", "third_partial_derivative", "third_partial_derivative_vec"}
     need |= {"try_" + n for n in need}
+    need |= {"seed_helper"}
     if need - names:
         raise ToolError("vacuity: drivers never called: %s" % sorted(need - names))
     for mm in rep["mismatches"]:
         chk.violation("driver %s: observed %s expected %s (case %s)" % (mm["driver"], mm["observed"][:300], mm["expected"][:300],
-                                                                         json.dumps(mm["case"]["case"])),
+                                                                         json.dumps(mm["case"].get("case", mm["case"]))),
                       {"kind": "driver-case", **mm})
     return chk.finish(rule="one case = (driver incl. try_ variants and error payloads, float width, static/dynamic storage); the "
                            "closures are cubic polynomial maps with pairwise distinct integer coefficients (asymmetric, m != n), "
